@@ -102,3 +102,27 @@ Theorem C16_blob_forest_single_root :
     0 < K -> 1 < F -> b <> [] -> len b < 2 ^ 64 -> length (blob_forest K F b) = 1%nat.
 Proof. exact blob_forest_single_root. Qed.
 Print Assumptions C16_blob_forest_single_root.
+
+Theorem C16_compare_adaptive_antisym :
+  forall (K F : N) (content : bytes -> bytes) (cl cr : bytes) (l r : aval),
+    0 < K -> repr_of content cl l -> repr_of content cr r ->
+    cmp_safe K F cl cr l r = true -> cmp_safe K F cr cl r l = true ->
+    compare_adaptive K F content r l = CompOpp (compare_adaptive K F content l r).
+Proof. exact compare_adaptive_antisym. Qed.
+Print Assumptions C16_compare_adaptive_antisym.
+
+(* collated text / JSON: a comparison that is a function of the contents only is
+   antisymmetric and representation independent, given an antisymmetric order on contents *)
+Theorem C16_content_compare_antisym :
+  forall (content_of : aval -> bytes) (ord : bytes -> bytes -> Z),
+    (forall a b, ord b a = (- ord a b)%Z) ->
+    forall l r, content_compare content_of ord r l = (- content_compare content_of ord l r)%Z.
+Proof. exact content_compare_antisym. Qed.
+Print Assumptions C16_content_compare_antisym.
+
+Theorem C16_content_compare_repr_indep :
+  forall (content_of : aval -> bytes) (ord : bytes -> bytes -> Z) (l l' r r' : aval),
+    content_of l = content_of l' -> content_of r = content_of r' ->
+    content_compare content_of ord l r = content_compare content_of ord l' r'.
+Proof. exact content_compare_repr_indep. Qed.
+Print Assumptions C16_content_compare_repr_indep.
